@@ -4,6 +4,7 @@
  * order by the harness; the output matrix starts from arbitrary contents because the kernels accumulate.
  * IEEE jobs: pure data movement (transpose, sort) and memory safety. */
 #include "vc.h"
+#include <math.h>
 #include "matrix.h"
 #include "vector.h"
 #include "numeric.h"
@@ -292,17 +293,20 @@ void h_tensor_contractions(void)
   VC_REACH();
 }
 
-/* Column / row statistics against their definitions (ring mode, cells restricted to 0..3 so that no intermediate
- * leaves 0..127: ring arithmetic is then integer arithmetic with truncating division, the same in the routine and in
- * the definition below).  What is decided: which cells enter which statistic, the counts and the denominators
- * (n, n-1); sqrt is an uninterpreted function (-Dsqrt=...), rounding is not decided. */
+/* Column / row statistics against their definitions on exact instances (IEEE mode, cells restricted to the integers
+ * 0..3, row/column counts 1, 2 or 4 and n-1 = 1): every sum, difference, product and quotient of the definition is then
+ * exactly representable, so every mathematically equivalent evaluation (other order, one-pass formulas, reciprocal
+ * multiplication) returns the same double and exact equality is the right obligation.  What is decided: which cells enter
+ * which statistic, the counts and the denominators (n, n-1); sqrt is an uninterpreted function (stubs/usqrt_stub.c);
+ * rounding on general data and the missing-value branches are not decided. */
 #ifdef VC_STATS
 static double small_cell(void)
 {
   uint64_t v = vc_in_u64();
   VC_ASSUME(v <= 3);
-  return (double)(int8_t)v;
+  return (double)v;
 }
+#define POW2(n) ((n) == 1 || (n) == 2 || (n) == 4)
 void h_col_statistics(void)
 {
   matrix *m, *cov;
@@ -333,16 +337,20 @@ void h_col_statistics(void)
     }
     double a = s / (double)VC_M;
     VC_CHECK("MatrixColAverage[j] == sum_i m[i][j] / rows", avg->data[j] == a);
-    double v = 0;
-    for(size_t i = 0; i < VC_M; i++)
-      v += (cell[i][j] - a) * (cell[i][j] - a);
-    v = v / (double)(VC_M - 1);
-    VC_CHECK("MatrixColVar[j] == sum_i (m[i][j] - mean_j)^2 / (rows - 1)", var->data[j] == v);
-    VC_CHECK("MatrixColSDEV[j] == sqrt(sample variance of column j)", sd->data[j] == (double)sqrt(v));
-    VC_CHECK("MatrixColRMS[j] == sqrt(sum_i m[i][j]^2 / rows)", rms->data[j] == (double)sqrt(q / (double)VC_M));
+    double h_rms = sqrt(q / (double)VC_M);
+    VC_CHECK("MatrixColRMS[j] == sqrt(sum_i m[i][j]^2 / rows)", VC_SAME(rms->data[j], h_rms));
+    if(POW2(VC_M - 1)) {
+      double v = 0;
+      for(size_t i = 0; i < VC_M; i++)
+        v += (cell[i][j] - a) * (cell[i][j] - a);
+      v = v / (double)(VC_M - 1);
+      VC_CHECK("MatrixColVar[j] == sum_i (m[i][j] - mean_j)^2 / (rows - 1)", var->data[j] == v);
+      double h_sd = sqrt(v);
+      VC_CHECK("MatrixColSDEV[j] == sqrt(sample variance of column j)", VC_SAME(sd->data[j], h_sd));
+      VC_CHECK("covariance diagonal == sample variance of the column", cov->data[j][j] == v);
+    }
     for(size_t k = 0; k < VC_N; k++)
       VC_CHECK("covariance is symmetric", cov->data[j][k] == cov->data[k][j]);
-    VC_CHECK("covariance diagonal == sample variance of the column", cov->data[j][j] == v);
   }
   for(size_t i = 0; i < VC_M; i++) {
     double s = 0;
@@ -352,7 +360,8 @@ void h_col_statistics(void)
     }
     VC_CHECK("MatrixRowAverage[i] == sum_j m[i][j] / columns", ravg->data[i] == s / (double)VC_N);
   }
-  VC_CHECK("Matrixnorm == sqrt(sum of squared cells)", nrm == (double)sqrt(ssq_all));
+  double h_nrm = sqrt(ssq_all);
+  VC_CHECK("Matrixnorm == sqrt(sum of squared cells)", VC_SAME(nrm, h_nrm));
   VC_REACH();
 }
 #endif
